@@ -187,6 +187,15 @@ def p_pool(kind, which, tier):
     return out
 
 
+def _gap_points(c):
+    out = []
+    for (y, mo, d) in ((1896, 12, 28), (1897, 1, 1), (1897, 6, 15), (1897, 11, 21), (1896, 3, 1), (2296, 12, 29), (2297, 6, 15)):
+        dn = c.dn_from_cal(y, mo, d)
+        for rep in pools.REPS:
+            out.append({"rep": rep, "f": list(c.from_dn(rep, dn)), "t": ["hms", 6, 30, 0], "tz": [0, 0]})
+    return out
+
+
 def units(tier):
     us = []
     tz = T_ZONES_QUICK if tier == "quick" else T_ZONES
@@ -335,6 +344,10 @@ def run_unit(unit, ctx):
                     ctx.sample(lambda: {"mode": kind, "t": t, "p": ps[0]})
                     for pdesc in ps:
                         check_case(ctx, kind, c, t, pdesc, hang)
+                    if kind == "greg" and (dy.get("week") == 53 or dy.get("doy") == 366) and z is None and not tm:
+                        # longest legitimate walks: p just after the last 53-week year / leap day before a century gap
+                        for pdesc in _gap_points(c):
+                            check_case(ctx, kind, c, t, pdesc, hang)
     elif u == "parsed":
         # the same shapes spelled as text and read by the truncated parser
         from metomi.isodatetime.parsers import TimePointParser
